@@ -114,6 +114,7 @@ def run(ctx):
     except build.BuildError as e:
         ctx.tie_broken.append('replay driver: ' + str(e)[:300]); rexe = None
     cases = []
+    build.warm(cfgs, [('arena', ['h_arena.cpp'], {}), ('stack', ['h_stack.cpp'], {}), ('pool', ['h_pool.cpp'], {}), ('iter', ['h_iter.cpp'], {})])
     ex_arena = {c: build.build_harness('arena', c, ['h_arena.cpp']) for c in cfgs}
     ex_stack = {c: build.build_harness('stack', c, ['h_stack.cpp']) for c in cfgs}
     ex_pool = {c: build.build_harness('pool', c, ['h_pool.cpp']) for c in cfgs}
